@@ -422,9 +422,11 @@ impl Variable {
             Comparator::Equal => Some(*self == *value),
             Comparator::NotEqual => Some(*self != *value),
             Comparator::LessThan => Some(*self < *value),
-            Comparator::LessThanEqual => Some(*self <= *value),
+            // `==` tolerates floating point noise (see float_eq), so `<=` and `>=`
+            // must accept everything that `==` accepts.
+            Comparator::LessThanEqual => Some(*self < *value || *self == *value),
             Comparator::GreaterThan => Some(*self > *value),
-            Comparator::GreaterThanEqual => Some(*self >= *value),
+            Comparator::GreaterThanEqual => Some(*self > *value || *self == *value),
         }
     }
 
